@@ -671,6 +671,32 @@ pub(crate) mod b {
                             println!("BOUNDED-WITNESS {} arc drawing {:?} at scale {}: {:?} spans ({},{})..({},{}) on a {}x{} canvas", kind, text, scale, f.fragment, lo.x, lo.y, hi.x, hi.y, cw, chh);
                             panic!("everything drawn from the cell map lies inside the canvas");
                         }
+                        // the bounds of an arc are those of its chord: follow the curve itself (minor arcs; the centre is the
+                        // real Arc::center, the direction the sweep flag: clockwise on a y-down page)
+                        if let Fragment::Arc(a) = &f.fragment {
+                            let c = a.center();
+                            if a.major_flag || c.x.is_nan() || c.y.is_nan() {
+                                continue;
+                            }
+                            let a0 = (a.start.y - c.y).atan2(a.start.x - c.x);
+                            let a1 = (a.end.y - c.y).atan2(a.end.x - c.x);
+                            let two_pi = 2.0 * std::f32::consts::PI;
+                            let mut delta = a1 - a0;
+                            if a.sweep_flag {
+                                while delta < 0.0 { delta += two_pi; }
+                            } else {
+                                while delta > 0.0 { delta -= two_pi; }
+                            }
+                            for k in 0..=16 {
+                                let t = a0 + delta * k as f32 / 16.0;
+                                let (x, y) = ((c.x + a.radius * t.cos()) * scale, (c.y + a.radius * t.sin()) * scale);
+                                let eps = 1e-3 * scale;
+                                if x < -eps || y < -eps || x > cw + eps || y > chh + eps {
+                                    println!("BOUNDED-WITNESS {} arc drawing {:?} at scale {}: the curve of {:?} reaches ({},{}) on a {}x{} canvas", kind, text, scale, a, x, y, cw, chh);
+                                    panic!("everything drawn from the cell map lies inside the canvas");
+                                }
+                            }
+                        }
                     }
                     n += 1;
                 }
